@@ -2,3 +2,8 @@
 import VirtioVerif.Model.Proto
 import VirtioVerif.Model.Layout
 import VirtioVerif.Props.C06
+import VirtioVerif.Model.Wire
+import VirtioVerif.Model.CmdQueue
+import VirtioVerif.Model.Edid
+import VirtioVerif.Model.Gpu
+import VirtioVerif.Props.C20
